@@ -8,6 +8,7 @@ from ..context import Ctx
 from ..loader import AnalysisError, norm, own_nodes
 from ..pairing import bracket_rule, contains_call, method_call
 from ..report import RuleResult
+from .common import expand as _expand9, is_que, private_parts
 from ..typestate import typestate_rule
 from .common import TRANSPORT_ERR, borrow, closure_rule, policy_fsm
 
@@ -55,7 +56,7 @@ def check(ctx: Ctx) -> list[RuleResult]:
     for f, n in writers:
         r2.instances += 1
         r2.nontrivial += 1
-        if f.qualname in (f"{MOD}.ProtocolContext.set_state", f"{MOD}.ProtocolContext.__init__"):
+        if f.qualname in (f"{MOD}.ProtocolContext.set_state", f"{MOD}.ProtocolContext.__init__") or any(f is g for g, _m in private_parts(ctx, repo.func(f"{MOD}.ProtocolContext.set_state"))):
             r2.ok({"writer": f.short, "stmt": norm(getattr(n, "parent", n))[:60]})
         else:
             r2.fail(f"{f.short}:writes-_state", f.loc(n), f"{f.short} assigns ProtocolContext._state directly, bypassing set_state (timer cancellation, future resolution and tx counters would be skipped)")
@@ -149,7 +150,7 @@ def check(ctx: Ctx) -> list[RuleResult]:
         tests = [norm(p.ast) for p, lab in zip(path, labs[1:] + [""]) if p.kind == "test" and lab == "true"]
         if not any("Inactive" in t for t in tests):
             bad.append(path)
-    exc_calls = [c for c in ast.walk(cl.node) if isinstance(c, ast.Call) and method_call("set_state")(c) and any(k.arg == "exception" and "TransportError" in norm(k.value) for k in c.keywords)]
+    exc_calls = [c for c in ast.walk(cl.node) if isinstance(c, ast.Call) and method_call("set_state")(c) and any(k.arg == "exception" and "TransportError" in norm(_expand9(cl.node, k.value, pure_only=False)) for k in c.keywords)]
     if bad or not exc_calls:
         r5.fail(f"{cl.short}:disconnect-does-not-answer", cl.loc(), "connection_lost can return without moving to Inactive / without resolving the in-flight future with TransportError: the caller would wait for its full timeout")
     else:
@@ -167,7 +168,7 @@ def check(ctx: Ctx) -> list[RuleResult]:
     r6 = RuleResult("R6", "no blocking primitive on the event-loop thread", "the FSM's queue is only used through put_nowait/get_nowait; its lock is never held across an await", min_instances=2)
     for f in funcs:
         for n in own_nodes(f.node):
-            if isinstance(n, ast.Call) and isinstance(n.func, ast.Attribute) and "_que" in norm(n.func.value) and n.func.attr in ("put", "get", "join", "put_nowait", "get_nowait"):
+            if isinstance(n, ast.Call) and isinstance(n.func, ast.Attribute) and is_que(f.node, n.func.value) and n.func.attr in ("put", "get", "join", "put_nowait", "get_nowait"):
                 r6.instances += 1
                 r6.nontrivial += 1
                 blocking = n.func.attr in ("put", "get", "join") and not any(k.arg == "block" and isinstance(k.value, ast.Constant) and k.value.value is False for k in n.keywords)
